@@ -36,6 +36,9 @@ type DecideCase struct {
 	// Warm: the library value that is loaded has a history — it was built with other operands, assembled
 	// and dumped once, and then edited in place (same shape) to the policy of this case.
 	Warm bool `json:"warm,omitempty"`
+	// Second: a further policy loaded on top of the first one in the same child (same flags); the kernel
+	// then runs both filters and keeps the most restrictive answer (Model/Chain.lean).
+	Second *vd.Policy `json:"second,omitempty"`
 }
 
 // probe syscalls ignore their registers.  The Go runtime itself uses getpid, gettid and sched_yield,
@@ -53,6 +56,16 @@ const (
 func probeNr(name string) uint64 { return uint64(vd.ArchInfo("x86_64").SyscallNames[name]) }
 
 func genDecide(r *rand.Rand) DecideCase {
+	c := genDecideOne(r)
+	if r.Intn(3) == 0 {
+		c2 := genDecideOne(r)
+		c.Second = &c2.Policy
+		c.Events = append(c.Events, c2.Events...)
+	}
+	return c
+}
+
+func genDecideOne(r *rand.Rand) DecideCase {
 	c := DecideCase{NNP: true, Flags: []uint32{0, 1, 2, 3}[r.Intn(4)], Warm: r.Intn(4) == 0}
 	if r.Intn(4) == 0 {
 		c.NNP = false // the harness runs as root
@@ -194,7 +207,7 @@ func genDecide(r *rand.Rand) DecideCase {
 	// numbers no table holds: the x32 range and beyond (the compiled filter answers ENOSYS itself on x86_64;
 	// so does the kernel for whatever the filter lets through, so these probes are harmless)
 	if p.Default != actAllow || r.Intn(3) == 0 {
-		for _, nr := range []uint64{0x80000027, 0xBFFFFFFF, 0x40000027, 0x7FFFFFFF, 0xC0000000, 0xFFFFFFFF}[r.Intn(3) : 3+r.Intn(4)] {
+		for _, nr := range append([]uint64{0x40000000}, []uint64{0x80000027, 0xBFFFFFFF, 0x40000027, 0x7FFFFFFF, 0xC0000000, 0xFFFFFFFF}[r.Intn(3):3+r.Intn(4)]...) {
 			ev := Event{Nr: nr}
 			for a := range ev.Args {
 				ev.Args[a] = argval()
@@ -242,6 +255,14 @@ func childDecide(c DecideCase) {
 		fmt.Fprintf(out, "load-error %v\n", err)
 		out.Flush()
 		os.Exit(3)
+	}
+	if c.Second != nil {
+		filter2 := seccomp.Filter{NoNewPrivs: c.NNP, Flag: seccomp.FilterFlag(c.Flags), Policy: c.Second.ToGo()}
+		if err := seccomp.LoadFilter(filter2); err != nil {
+			fmt.Fprintf(out, "load-error (second policy) %v\n", err)
+			out.Flush()
+			os.Exit(3)
+		}
 	}
 	fmt.Fprintln(out, "loaded")
 	out.Flush()
@@ -406,6 +427,25 @@ func decideStream(sum *Summary, model *vd.Model, n int, seed int64) {
 			}
 			var dec uint32
 			fmt.Sscanf(reply, "DEC %d", &dec)
+			if c.Second != nil {
+				// two filters on the thread: the kernel keeps the most restrictive answer (newest first)
+				req2 := fmt.Sprintf("S x86_64 %s %d 3221225534 %d %d %d %d %d %d", c.Second.Body(), ev.Nr, ev.Args[0], ev.Args[1], ev.Args[2], ev.Args[3], ev.Args[4], ev.Args[5])
+				reply2, err := model.Ask(req2)
+				if err != nil {
+					sum.Error = err.Error()
+					return
+				}
+				var dec2 uint32
+				fmt.Sscanf(reply2, "DEC %d", &dec2)
+				reply3, err := model.Ask(fmt.Sprintf("CH 2 %d %d", dec2, dec))
+				if err != nil || !strings.HasPrefix(reply3, "CHAIN ") {
+					sum.Error = "model: chain request failed: " + reply3
+					return
+				}
+				req, reply = req+" ; "+req2, reply+" ; "+reply2+" ; "+reply3
+				fmt.Sscanf(reply3, "CHAIN %d", &dec)
+				sum.Distribution["two-filters-on-the-thread"]++
+			}
 			want := outcome(dec)
 			sum.Distribution["expect:"+want]++
 			key := fmt.Sprintf("%x/%d", cj[:0], j) + req
